@@ -61,6 +61,7 @@ pub fn run(prop: &str, tier: Tier, seed: u64, replay: Option<&str>) -> i32
     {
         let (engine, rule) = tree_engine(p).unwrap();
         let spec = CheckSpec{
+            fuzz_target: Some("tree"),
             prop: p,
             engine: &engine,
             quick_cases: 200_000,
@@ -74,6 +75,7 @@ pub fn run(prop: &str, tier: Tier, seed: u64, replay: Option<&str>) -> i32
     {
         let engine = crate::acc14::AccEngine;
         let spec = CheckSpec{
+            fuzz_target: Some("acc14"),
             prop: "C14",
             engine: &engine,
             quick_cases: 60_000,
@@ -90,6 +92,7 @@ pub fn run(prop: &str, tier: Tier, seed: u64, replay: Option<&str>) -> i32
     {
         let engine = crate::sys17::SysEngine;
         let spec = CheckSpec{
+            fuzz_target: Some("sys17"),
             prop: "C17",
             engine: &engine,
             quick_cases: 60_000,
@@ -106,6 +109,7 @@ pub fn run(prop: &str, tier: Tier, seed: u64, replay: Option<&str>) -> i32
     {
         let engine = crate::rc10::RcEngine;
         let spec = CheckSpec{
+            fuzz_target: None,
             prop: "C10",
             engine: &engine,
             quick_cases: 20_000,
@@ -123,6 +127,7 @@ pub fn run(prop: &str, tier: Tier, seed: u64, replay: Option<&str>) -> i32
     {
         let engine = crate::wr16::WrEngine{ prop: "C16" };
         let spec = CheckSpec{
+            fuzz_target: Some("wr16"),
             prop: "C16",
             engine: &engine,
             quick_cases: 40_000,
